@@ -23,12 +23,13 @@ def ancestors_and_self(p, fid):
 
 
 def case_job(arg):
-    p0, fid, cls, when, store, new_proc, other, populate = arg
+    p0, fid, cls, when, store, new_proc, other, populate = arg[:8]
+    msg = arg[8] if len(arg) > 8 else "text"
     rep = core.Report("C10")
     rep.evaluations = 1
     v0 = p0
     v1, _ = gen.e_set_const(p0, fid, 5000)
-    v1["fns"][fid]["fail"] = {"cls": cls, "when": when}
+    v1["fns"][fid]["fail"] = {"cls": cls, "when": when, "msg": msg}
     v2 = gen.clone(v1)
     del v2["fns"][fid]["fail"]
     if not populate:
@@ -49,7 +50,7 @@ def case_job(arg):
             rep.inconclusive.append("setup error: %s" % (o["impl"].get("setup_error") or o["ref"].get("setup_error"))[-300:])
             return rep
     fname = p0["fns"][fid]["name"]
-    desc = "failing function %s raising %s at %s on %s" % (fname, cls, when, store)
+    desc = "failing function %s raising %s (%s) at %s on %s" % (fname, cls, {"text": "with a message", "none": "without arguments", "empty": "with an empty message", "multiline": "with a two-line message"}[msg], when, store)
     cz = {"case": case, "fn": fname, "cls": cls}
 
     def bad(what, mech=None):
@@ -236,7 +237,7 @@ def run(tier, seed):
     rep = core.Report("C10")
     rng = core.rng_for(seed, "c10")
     rep.rule = (
-        "programs (matrix skeletons, random DAG programs) x every function reachable from the entry chosen as the failing one x exception classes %r x failing before / after its sub-calls x stores "
+        "programs (matrix skeletons, random DAG programs) x every function reachable from the entry chosen as the failing one x exception classes %r (raised with a message, without arguments, with an empty or a two-line message) x failing before / after its sub-calls x stores "
         "memory, local, local+cache; history in one process: populate (v0) -> failing v1 -> failing v1 again -> repaired v2 (optionally in a new process) -> a different pipeline -> v2 again; plus retry scenarios: one evaluation whose pipeline catches the exception of a kept call and calls it again (always failing x n attempts; failing the first n executions then succeeding), checked per attempt. "
         "distinct_nontrivial = distinct (program, failing function, exception class, position, store) cases fully observed." % (EXC,)
     )
@@ -258,7 +259,7 @@ def run(tier, seed):
                 when = ["end", "start"][(fi + ci) % 2]
                 store = ["local", "memory", "local_lru"][(n + ci) % 3]
                 n += 1
-                jobs.append((p0, fid, cls, when, store, n % 4 == 0, other, n % 2 == 0))
+                jobs.append((p0, fid, cls, when, store, n % 4 == 0, other, n % 2 == 0, ["text", "none", "text", "empty", "multiline"][(n + fi) % 5]))
     rjobs = []
     for store in ("local", "memory", "local_lru"):
         for ci, cls in enumerate(("ValueError", "KeyError", "CustomError", "KeyboardInterrupt", "CustomBase")):
@@ -294,5 +295,5 @@ def replay(payload):
     populate = v0["pkg"] == v1["pkg"]
     if not populate:
         v0 = gen.clone(v2)
-    rep.merge(case_job((v0, fid, fl["cls"], fl["when"], c["store"], bool(c["history"][3].get("new_process")), other, populate)))
+    rep.merge(case_job((v0, fid, fl["cls"], fl["when"], c["store"], bool(c["history"][3].get("new_process")), other, populate, fl.get("msg", "text"))))
     return rep
